@@ -4,11 +4,11 @@ CONSTANTS
   RefPoint <- MCRef
   QScales = {1,2,3,4,5}
   QNfs = {3, 4, 5}
-  MaxQueries = 4
+  MaxQueries = 3
   MaxMutations = 2
   CopyRef = TRUE
   CopyOnHit = TRUE
-  Qed = FALSE
+  Qed = TRUE
   TauTok = 100
   TauBelow = 2
   CopyOnStore = TRUE
